@@ -814,6 +814,9 @@ def part_stateless(job):
         if _h(w.state) not in _SEEN:
             raise HarnessError('state abstraction unsound: history %r reaches a canonical state the BFS never '
                                'visited' % (h,))
+        if w.pending[0] == 'probe':
+            p.add('stateless_stopped_at_probe')      # start-up is covered by the BFS only (10 options per probe)
+            continue
         if len(h) < limit:
             for c in w.pending[1]:
                 stack.append(h + (c,))
@@ -828,7 +831,8 @@ def _stateless_jobs(cfg, roots, split, extra):
             nxt = []
             for h in level:
                 w = _build(cfg, h)
-                nxt += [h + (c,) for c in w.pending[1]]
+                if w.pending[0] != 'probe' and not w.viol:
+                    nxt += [h + (c,) for c in w.pending[1]]
             level = nxt
         jobs += [(cfg, h, extra - split) for h in level]
     return jobs
